@@ -263,7 +263,19 @@ fn record(agg: &mut Agg, prop: &str, profile: &str, job: usize, seed: u64, res: 
                 for x in a {
                     let p = x["prop"].as_str().unwrap_or("");
                     if p != prop {
-                        *agg.other_props.entry(p.to_string()).or_insert(0) += 1;
+                        let n = agg.other_props.entry(p.to_string()).or_insert(0);
+                        *n += 1;
+                        if *n == 1 {
+                            // kept for triage only; it is the other property's check that decides
+                            if let Some(c) = v.get("case") {
+                                let dir = verif_dir().join("replays");
+                                let _ = std::fs::create_dir_all(&dir);
+                                let _ = std::fs::write(
+                                    dir.join(format!("seen_while_checking_{}_{}_{}.json", prop, p, seed)),
+                                    serde_json::to_string_pretty(&json!({"property": p, "check": x["check"], "message": x["msg"], "seed": seed, "profile": profile, "note": format!("seen (not reported) by the {} check", prop), "case": c})).unwrap(),
+                                );
+                            }
+                        }
                     }
                 }
             }
